@@ -30,7 +30,7 @@ void run_cpp(const Scenario& s, Observed& ob) {
     vf::Fixture fx;
     fx.run(
         [&]() {
-            auto M = [&](int fn) -> MockSupport& { return (s.scoped && fn) ? mock("s") : mock(); };
+            auto M = [&](int fn) -> MockSupport& { return s.scoped == 2 ? mock(fn ? "t" : "s") : (s.scoped && fn) ? mock("s") : mock(); };
             auto name = [&](int fn) { return s.scoped ? "f" : FN[fn]; };
             if (s.strict) mock().strictOrder();
             for (size_t i = 0; i < s.exps.size(); i++) {
@@ -120,7 +120,7 @@ void check(const Scenario& s, const Alphabet& A) {
     }
 }
 
-struct Sweep { const char* name; bool ig, obj; int maxE, maxA; int flagbits; /* how many of strict,ioc,ret,out vary */ int nfn; bool scoped = false; };
+struct Sweep { const char* name; bool ig, obj; int maxE, maxA; int flagbits; /* how many of strict,ioc,ret,out vary */ int nfn; int scoped = 0; };
 
 void run_sweep(const Sweep& sw) {
     Alphabet A = make_alphabet(sw.ig, sw.obj, sw.nfn);
@@ -137,7 +137,7 @@ void run_sweep(const Sweep& sw) {
         decode_tuple(ie, (long)A.eo.size(), te); decode_tuple(ia, (long)A.ao.size(), ta);
         Scenario s;
         s.strict = flags & 1; s.ignoreOtherCalls = flags & 2; s.readReturn = flags & 4; s.outParam = flags & 8;
-        if (sw.scoped) { s.scoped = true; s.readReturn = flags & 1; s.outParam = flags & 2; s.strict = false; s.ignoreOtherCalls = false; }
+        if (sw.scoped) { s.scoped = sw.scoped; s.readReturn = flags & 1; s.outParam = flags & 2; s.strict = false; s.ignoreOtherCalls = false; }
         for (int i : te) s.exps.push_back(A.eo[i]);
         for (int i : ta) s.acts.push_back(A.ao[i]);
         if (!canonical(s)) { vf::count("skipped_symmetric"); return; }
@@ -157,11 +157,11 @@ int main(int argc, char** argv) {
     bool sanitized = std::string(VF_FLAVOUR) != "plain";      // the sanitizer build is ~5x slower: smaller sweeps, memory safety is the point there
     if (sanitized) {
         if (!T) sweeps = { {"basic22", false, false, 2, 2, 2, 2}, {"ignore12", true, false, 1, 2, 4, 2}, {"object12", false, true, 1, 2, 4, 1} };
-        else    sweeps = { {"basic22", false, false, 2, 2, 4, 2}, {"ignore22", true, false, 2, 2, 2, 2}, {"object22", false, true, 2, 2, 2, 1}, {"scope22", false, false, 2, 2, 2, 2, true} };
+        else    sweeps = { {"basic22", false, false, 2, 2, 4, 2}, {"ignore22", true, false, 2, 2, 2, 2}, {"object22", false, true, 2, 2, 2, 1}, {"scope22", false, false, 2, 2, 2, 2, 1}, {"twoscopes22", false, false, 2, 2, 2, 2, 2} };
     } else if (!T) {
-        sweeps = { {"basic22", false, false, 2, 2, 4, 2}, {"basic13", false, false, 1, 3, 3, 2}, {"ignore22", true, false, 2, 2, 2, 2}, {"object22", false, true, 2, 2, 2, 1}, {"scope22", false, false, 2, 2, 2, 2, true}, {"scope13", false, false, 1, 3, 2, 2, true} };
+        sweeps = { {"basic22", false, false, 2, 2, 4, 2}, {"basic13", false, false, 1, 3, 3, 2}, {"ignore22", true, false, 2, 2, 2, 2}, {"object22", false, true, 2, 2, 2, 1}, {"scope22", false, false, 2, 2, 2, 2, 1}, {"scope13", false, false, 1, 3, 2, 2, 1}, {"twoscopes22", false, false, 2, 2, 2, 2, 2} };
     } else {
-        sweeps = { {"basic23", false, false, 2, 3, 4, 2}, {"ignore23", true, false, 2, 3, 2, 2}, {"object22", false, true, 2, 2, 4, 1}, {"object23", false, true, 2, 3, 2, 1}, {"basic32", false, false, 3, 2, 2, 2}, {"scope23", false, false, 2, 3, 2, 2, true} };
+        sweeps = { {"basic23", false, false, 2, 3, 4, 2}, {"ignore23", true, false, 2, 3, 2, 2}, {"object22", false, true, 2, 2, 4, 1}, {"object23", false, true, 2, 3, 2, 1}, {"basic32", false, false, 3, 2, 2, 2}, {"scope23", false, false, 2, 3, 2, 2, 1}, {"twoscopes23", false, false, 2, 3, 2, 2, 2} };
     }
     for (auto& sw : sweeps) run_sweep(sw);
     return vf::finish();
